@@ -384,6 +384,28 @@ def search(ctx, T=None, info=None):
                                        'how_to_replay': 'PYTHONPATH=/repo python -c "from ppci.arch.riscv import instructions as I, registers as R; '
                                                         'i=[c for c in I.isa.instructions if c.__name__==%r]; print([(str(c(*[R.RiscvRegister.registers[1], R.RiscvRegister.registers[2], \'L\'])), '
                                                         'c(R.RiscvRegister.registers[1], R.RiscvRegister.registers[2], \'L\').encode().hex()) for c in i if len(c.syntax.formal_arguments)==3])"' % d['cls']})
+        # traced but not well-formed variants: an operand that never reaches the bytes
+        for d in x.get('bad', []):
+            names = [o['name'] for o in d['ops']]
+            for i, o in enumerate(d['ops']):
+                if o['kind'] == 'label' or o['width'] != 0 or names.count(o['name']) > 1:
+                    continue
+                if o['kind'] == 'reg' and len(o['nums']) < 2:
+                    continue
+                base = sample_ops(ctx.rng, d, 1, allow_bad=False)[0]
+                v1, v2 = (o['nums'][0], o['nums'][-1]) if o['kind'] == 'reg' else (0, 1)
+                a, b = list(base), list(base)
+                a[i], b[i] = v1, v2
+                ra, rb = real_encode(T, d, a), real_encode(T, d, b)
+                n_eval += 2
+                if isinstance(ra, OkV) and isinstance(rb, OkV) and ra.v == rb.v:
+                    ia, ib = T.instantiate(d['pycls'], d['vindex'], a), T.instantiate(d['pycls'], d['vindex'], b)
+                    ctx.violation({'fn': 'encode', 'isa': nm, 'class': d['cls'], 'operand': o['name'],
+                                   'key': 'unencoded:%s:%s:%s' % (nm, d['cls'], o['name']), 'args': [a, b],
+                                   'printed': [str(ia), str(ib)], 'bytes': ra.v.hex(),
+                                   'what': 'two instructions that print differently (operand %s) are emitted as the same bytes: '
+                                           'the operand never reaches the encoding' % o['name'],
+                                   'expected': 'different bytes for different printed operands', 'actual': ra.v.hex()})
         if nm == 'm68k':
             for d in x['good']:
                 mn = d['syntax'][0]
